@@ -263,3 +263,12 @@ class RunningMax(agg_base.AggregateFn):
 
   def __hash__(self):
     return hash('RunningMax')
+
+
+def failing_range(n, fail_at=0):
+  """Generator 0..n-1 that raises (non-skippable) instead of producing its fail_at-th element; returns 'done'."""
+  for i in range(n):
+    if fail_at and i == fail_at - 1:
+      raise RuntimeError(f'generator fails at its element {fail_at}')
+    yield i
+  return 'done'
